@@ -71,6 +71,19 @@ def forced_specs(seed, tier):
             sp = gen.make_spec(rng, D=rng.choice([1, 2]), geom="box", mode=mode, cons=None, target="quad")
             sp["options"] = {"n_search": ns, "n_search_iter": nsi, "max_fun_evals": 30 if mode == "det" else 58}
             jobs.append(("search_population", sp, {}))
+    # (i) end points and plain-Python spellings of numeric search settings: no exploration floor in the strategy portfolio (hedge_gamma = 0:
+    #     the scores of the strategies that were not drawn are then predicted by the GP), a fixed scalar confidence parameter sqrt_beta
+    for mode in ("det", "decl"):
+        for D in (1, 2, 3):
+            sp = gen.make_spec(rng, D=D, geom="box", mode=mode, cons=None, target="quad")
+            sp["options"] = {"n_search": 32, "max_fun_evals": 30 if mode == "det" else 58, "hedge_gamma": 0 if D != 3 else 0.0}
+            jobs.append(("numeric_endpoint", sp, {}))
+        for key, val in (("search_acq_fcn", "('acq_LCB', 2.0)"), ("search_acq_fcn", "('acq_LCB', np.float64(2.0))"), ("poll_acq_fcn", "('acq_LCB', 2.0)"),
+                         ("search_acq_fcn", "('acq_LCB', 3)"), ("poll_acq_fcn", "('acq_LCB', np.float32(1.5))")):
+            sp = gen.make_spec(rng, D=2, geom="box", mode=mode, cons=None, target="quad")
+            sp["options"] = {"n_search": 32, "max_fun_evals": 30 if mode == "det" else 58}
+            sp["np_options"] = {key: val}
+            jobs.append(("numeric_endpoint", sp, {}))
     # (g) every boolean option of the two option files, toggled one at a time ("all option combinations" starts with the single switches)
     names = gen.boolean_options(skip=("specify_target_noise", "uncertainty_handling", "plot"))
     modes = ("det", "decl", "he")
